@@ -129,6 +129,41 @@ func c19Builder(ds []c19Desc) fpgo.SortDescriptorsBuilder[SRec] {
 	return s1
 }
 
+// a second record type with the SAME field names at DIFFERENT positions: sorting it by field name right before the judged call must
+// not influence how SRec's fields are found (field lookup is per type)
+type SRecM struct {
+	Tag        int
+	S3, S2, S1 fpgo.ComparableString
+	K3, K2, K1 fpgo.ComparableOrdered[int]
+}
+
+func c19Decoy(ds []c19Desc) {
+	defer func() { recover() }()
+	b := fpgo.NewSortDescriptorsBuilder[SRecM]()
+	n := 0
+	for _, d := range ds {
+		if d.Via != "field" {
+			continue
+		}
+		field := map[string]string{"k1": "1", "k2": "2", "k3": "3"}[d.Key]
+		if d.Ty == "ordered" {
+			field = "K" + field
+		} else {
+			field = "S" + field
+		}
+		b = b.ThenWithFieldName(field, d.Asc)
+		n++
+	}
+	if n == 0 {
+		return
+	}
+	mk := func(a, bb, c, tag int) SRecM {
+		return SRecM{Tag: tag, K1: fpgo.NewComparableOrdered(a), K2: fpgo.NewComparableOrdered(bb), K3: fpgo.NewComparableOrdered(c),
+			S1: fpgo.NewComparableString(keyStr(a)), S2: fpgo.NewComparableString(keyStr(bb)), S3: fpgo.NewComparableString(keyStr(c))}
+	}
+	b.ToSortedList(mk(2, 1, 2, 1), mk(1, 2, 1, 2), mk(2, 2, 1, 3))
+}
+
 func c19Exec(c *c19Case) (l c19Line) {
 	l.c19Case = *c
 	if l.Ds == nil {
@@ -218,15 +253,19 @@ func c19Exec(c *c19Case) (l c19Line) {
 			l.Out, l.InAfter = retag(c.In, un(out)), retag(c.In, un(vals))
 		}
 	case "SortBySortDescriptors":
+		c19Decoy(c.Ds)
 		fpgo.SortBySortDescriptors(c19Builder(c.Ds).GetSortDescriptors(), in)
 		l.Out, l.InAfter = unRecs(in), unRecs(in)
 	case "Builder.Sort":
+		c19Decoy(c.Ds)
 		c19Builder(c.Ds).Sort(in)
 		l.Out, l.InAfter = unRecs(in), unRecs(in)
 	case "SortedListBySortDescriptors":
+		c19Decoy(c.Ds)
 		out := fpgo.SortedListBySortDescriptors(c19Builder(c.Ds).GetSortDescriptors(), in...)
 		l.Out, l.InAfter = unRecs(out), unRecs(in)
 	case "Builder.ToSortedList":
+		c19Decoy(c.Ds)
 		out := c19Builder(c.Ds).ToSortedList(in...)
 		l.Out, l.InAfter = unRecs(out), unRecs(in)
 		if len(out) > 0 { // the returned list must not be the caller's slice
